@@ -68,9 +68,9 @@ def run(ctx):
         else:
             logp = ctx.path("race")
             lr, sr = cc.run_scenarios(ctx, [ctx.seed * 1000 + 800 + i for i in range(6)], 150, extra=["-schedule", sched], vh=vr,
-                                      env={"GORACE": "halt_on_error=0 log_path=%s" % logp})
+                                      env={"GORACE": "halt_on_error=0 exitcode=0 log_path=%s" % logp})
             l5, s5 = cc.run_scenarios(ctx, [ctx.seed * 1000 + 850 + i for i in range(4)], 150, extra=["-schedule", sched] + cc.VRF, vh=vr,
-                                      env={"GORACE": "halt_on_error=0 log_path=%s" % logp})
+                                      env={"GORACE": "halt_on_error=0 exitcode=0 log_path=%s" % logp})
             lines += lr + l5
             sums += sr + s5
             locs = {}
